@@ -176,7 +176,12 @@ def run_routine(mod, name, summ, opts=None, alias=None, values=None, extents=Non
     values = values or {}
     extents = extents or {}
     ps = describe(mod, name)
-    I = Interp(mod, summ, opts or {})
+    opts = dict(opts or {})
+    if 'raw_helper' not in opts:
+        from . import rawhelper
+        opts['raw_helper'] = rawhelper.decide       # small helpers computing on raw representations: decided in kernel mode
+        opts['_raw_helper_default'] = True
+    I = Interp(mod, summ, opts)
     regs = {}
     args = []
     for p in ps:
@@ -234,6 +239,12 @@ def run_routine(mod, name, summ, opts=None, alias=None, values=None, extents=Non
     e.params = ps
     e.ret = I.call(name, args)
     e.helper_findings = list(getattr(I, 'helper_findings', []) or [])
+    if e.helper_findings and opts.get('_raw_helper_default'):
+        # the caller has no use for the finding: a helper that is multilinear at every generic point but deviates from that
+        # polynomial at some representation is reported where it is met
+        f = e.helper_findings[0]
+        raise Sink('helper', 'raw-arithmetic helper is not the field function it is everywhere else: %s (contract-level witness: the operand '
+                   'is a value the producing field operations may deliver)' % f['info'], f['loc'], [mod.dem.get(name, name)])
     for reg, off, sz in I.writes:
         if reg.kind == 'param':
             e.writes[(reg.name, off)] = I.mem[(reg, off)][0]
